@@ -1,5 +1,5 @@
 ------------------------------ MODULE CatTrace ------------------------------
-(* {call: [mod, f, addws, shape], exists, exc, name, ws, eq, same}            *)
+(* {call: [mod, f, addws, shape], exists, exc, name, ws, eq, same, fresh}     *)
 EXTENDS TraceBase, CatalogueOps
 VARIABLES tid, verdict
 vars == <<tid, verdict>>
@@ -14,6 +14,7 @@ Clauses(e) ==
      <<"C19:HonoursExplicitAddWs",
           (e.exists /\ e.exc = "none" /\ e.call.addws \in {"true", "false"}) => e.ws = (e.call.addws = "true")>>,
      <<"C19:PassesArgumentsThroughLikeTagConstructor", (e.exists /\ e.exc = "none") => e.eq>>,
+     <<"C19:EachCallCreatesItsOwnElement", (e.exists /\ e.exc = "none") => e.fresh>>,
      <<"C19:TopLevelShortcutIsTheTagsFunction", (e.exists /\ e.call.mod = "top") => e.same>> >>
 Judge(e) == [fail |-> FailList(Clauses(e))]
 Init == tid \in 1..NChunks /\ verdict = "run"
